@@ -65,6 +65,11 @@ class Runner(object):
         self.case = case
         self.cfg = dict(world.DEFAULT_CFG)
         self.cfg.update(case.get('config') or {})
+        if any(f.get('kind') == 'crash' for f in case.get('faults') or []) \
+                or case.get('handoff_crash') is not None:
+            # a crash unwinds the open transaction of the node: no parked
+            # transactions then (they share the connection with the others)
+            self.cfg['overlap'] = 0.0
         self.res = RunResult()
         self.monitor_factories = monitors or []
         self.max_steps = max_steps or case.get('max_steps', 6000)
